@@ -222,7 +222,15 @@ def r4_routes(rep, ctx):
                       "; ".join(problems), node=ret, fn=fn, facts={"term": show(term, 400)})
             # same-unit shortcut
             _shortcut(rep, m, fn, cfg, res, spec, ret)
-    rep.floor("C01.R4", "conversion returns", n_conv, 5)
+    # every return of a route is a conversion, the unchanged value under equal units, or a delegation
+    n_ret = 0
+    for spec in ROUTES:
+        n_ret += _classify_returns(rep, m, spec)
+    rep.floor("C01.R4", "returns of conversion routes classified", n_ret, 6)
+    if not any(o.rule == "C01.R4" and o.status == "violated" for o in rep.obligations):
+        rep.floor("C01.R4", "conversion returns", n_conv, 5)
+    else:
+        rep.analysed["C01.R4:conversion returns"] = n_conv
     # the registered-conversion hand-off inside Convert passes (from, to, value) positionally
     conv = m.func("UnitDatabase.Convert")
     res = Resolver(m, conv)
@@ -240,6 +248,84 @@ def r4_routes(rep, ctx):
                           "registered conversion function is called with arguments out of protocol order: %s" % show(t, 300), node=n, fn=conv)
                 _shortcut(rep, m, conv, cfg, res, spec, n, tag="handoff")
     rep.floor("C01.R4", "hand-off to registered conversion types", handoffs, 1)
+
+
+def _classify_returns(rep, m, spec):
+    from ..terms import params_in, walk as twalk
+
+    fn = m.func(spec.qual)
+    res = Resolver(m, fn)
+    cfg = CFG(fn.node)
+    n = 0
+
+    def role_index(role):
+        return role[1] if role[0] == "param" else None
+
+    src_i, tgt_i, val_i = role_index(spec.source), role_index(spec.target), role_index(spec.value)
+
+    def derived_only_from(t, role):
+        if role[0] == "param":
+            ps = params_in(t)
+            return ps == {role[1]}
+        return any(x == ("field", role[1]) for x in twalk(t)) and not params_in(t)
+
+    eq_tests = []
+    for nid in cfg.nodes("test"):
+        e = cfg.ast[nid]
+        if isinstance(e, ast.Compare) and len(e.ops) == 1 and isinstance(e.ops[0], (ast.Eq, ast.NotEq)):
+            l, r = res.term(e.left), res.term(e.comparators[0])
+            if (derived_only_from(l, spec.source) and derived_only_from(r, spec.target)) or (derived_only_from(r, spec.source) and derived_only_from(l, spec.target)):
+                eq_tests.append((nid, "T" if isinstance(e.ops[0], ast.Eq) else "F"))
+
+    def is_conv(a):
+        return routes.match_conv(m, fn.cls, a) is not None
+
+    for node in ast.walk(fn.node):
+        if not (isinstance(node, ast.Return) and node.value is not None):
+            continue
+        p = node
+        owner = None
+        while p is not None:
+            p = getattr(p, "_parent", None)
+            if isinstance(p, (ast.FunctionDef, ast.AsyncFunctionDef, ast.Lambda)):
+                owner = p
+                break
+        if owner is not fn.node:
+            continue
+        n += 1
+        t = res.term(node.value)
+        key = "%s:return-kind:%s" % (spec.qual, norm(ast.unparse(node))[:70])
+        problems = []
+        kinds = set()
+        for a in alternatives(t):
+            if is_conv(a):
+                kinds.add("conversion")
+            elif routes.role_matches(a, spec.value):
+                dom = cfg.dominating_edges(cfg.node_of(node))
+                if any((nid, lab) in dom for nid, lab in eq_tests):
+                    kinds.add("unchanged value under equal units")
+                else:
+                    problems.append("returns the value unconverted on a path that is not guarded by 'source unit == target unit'")
+            elif a[0] == "call" and a[2] and len(a[2]) == 1 and a[2][0][0] == "gen":
+                el = alternatives(a[2][0][1])
+                if all(is_conv(x) for x in el):
+                    kinds.add("element-wise conversion")
+                else:
+                    problems.append("the element-wise branch yields %s for some elements instead of the conversion" % [show(x, 50) for x in el if not is_conv(x)])
+            elif a[0] == "gen":
+                el = alternatives(a[1])
+                if all(is_conv(x) for x in el):
+                    kinds.add("element-wise conversion")
+                else:
+                    problems.append("the element-wise branch yields unconverted elements")
+            elif a[0] == "call" and (a[1][0] == "field" or (a[1][0] == "attr" and a[1][1] == ("self",))):
+                kinds.add("delegation to %s" % (a[1][1] if a[1][0] == "field" else a[1][2]))
+            elif a[0] == "call" and any(x[0] == "elem" or (x[0] == "sub" and x[1][0] == "elem") for x in alternatives(a[1])):
+                kinds.add("hand-off to a registered conversion function")
+            else:
+                problems.append("can return %s, which is neither a conversion of the value nor the value itself under equal units" % show(a, 80))
+        rep.check(not problems, "C01.R4", key, "return is: %s" % ", ".join(sorted(kinds)), "%s %s" % (spec.qual.split(".")[-1], "; ".join(problems)), node=node, fn=fn)
+    return n
 
 
 def _info(m, fn, t):
